@@ -130,6 +130,11 @@ pub enum Strategy {
     /// its next few points with probability 1/3 each (two pre-emptions close
     /// together inside one operation: check-then-act and ABA windows).
     Burst(u8),
+    /// A slow or stalled node: once in the run, a thread that has just
+    /// acquired a lock is not scheduled for up to 10^exp steps (or until
+    /// nobody else can run) — timeouts, spin budgets and "the holder must be
+    /// dead" heuristics only show then. Otherwise like `Random`.
+    Stall(u8),
 }
 impl Strategy {
     pub fn name(&self) -> String {
@@ -138,6 +143,7 @@ impl Strategy {
             Strategy::Sticky(p) => format!("sticky{p}"),
             Strategy::Pct(d) => format!("pct{d}"),
             Strategy::Burst(q) => format!("burst{q}"),
+            Strategy::Stall(e) => format!("stall{e}"),
         }
     }
     pub fn from_name(s: &str) -> Strategy {
@@ -147,6 +153,8 @@ impl Strategy {
             Strategy::Pct(d.parse().unwrap_or(2))
         } else if let Some(q) = s.strip_prefix("burst") {
             Strategy::Burst(q.parse().unwrap_or(48))
+        } else if let Some(e) = s.strip_prefix("stall") {
+            Strategy::Stall(e.parse().unwrap_or(3))
         } else {
             Strategy::Random
         }
@@ -210,6 +218,9 @@ struct St {
     preempted: Vec<bool>,
     /// fairness: how many times in a row the same thread was chosen
     streak: (usize, u32),
+    /// Stall strategy: (victim, step until which it is not scheduled)
+    stalled: Option<(usize, u64)>,
+    stall_used: bool,
     stmt_points: bool,
     max_steps: u64,
     replay: Option<Vec<u8>>,
@@ -270,6 +281,8 @@ pub fn sim() -> &'static Sim {
                 boost: vec![],
                 preempted: vec![],
                 streak: (usize::MAX, 0),
+                stalled: None,
+                stall_used: false,
                 stmt_points: false,
                 max_steps: 0,
                 replay: None,
@@ -349,10 +362,39 @@ impl Sim {
     /// Picks who runs next among the runnable threads. `me` is the thread
     /// asking (usize::MAX for the harness at run start).
     fn choose(&self, st: &mut St, me: usize, boundary: bool) -> Option<usize> {
-        let runnable: Vec<usize> =
+        let mut runnable: Vec<usize> =
             (0..st.status.len()).filter(|&i| st.status[i] == Status::Runnable).collect();
         if runnable.is_empty() {
             return None;
+        }
+        // Stall strategy: besides "right after acquiring a reporting lock",
+        // a thread may also be frozen at any other scheduling point (it may
+        // be inside a hand-rolled lock the simulator knows nothing about).
+        if let Strategy::Stall(exp) = st.strategy {
+            if !st.stall_used
+                && st.replay.is_none()
+                && me != usize::MAX
+                && !boundary
+                && st.status.get(me) == Some(&Status::Runnable)
+                && st.rng.below(60) == 0
+            {
+                st.stall_used = true;
+                let until = st.stats.steps + 10u64.pow(exp as u32);
+                st.stalled = Some((me, until));
+            }
+        }
+        if let Some((victim, until)) = st.stalled {
+            if st.stats.steps >= until || st.replay.is_some() {
+                st.stalled = None;
+            } else {
+                let others: Vec<usize> = runnable.iter().copied().filter(|t| *t != victim).collect();
+                if others.is_empty() {
+                    // nobody else can run: the stall is over
+                    st.stalled = None;
+                } else {
+                    runnable = others;
+                }
+            }
         }
         st.stats.steps += 1;
         let step = st.stats.steps;
@@ -365,7 +407,9 @@ impl Sim {
             }
         } else {
             match st.strategy {
-                Strategy::Random => runnable[st.rng.below(runnable.len() as u64) as usize],
+                Strategy::Random | Strategy::Stall(_) => {
+                    runnable[st.rng.below(runnable.len() as u64) as usize]
+                }
                 Strategy::Sticky(p) => {
                     let r = st.rng.below(16) as u8;
                     let k = st.rng.below(runnable.len() as u64) as usize;
@@ -414,7 +458,7 @@ impl Sim {
             } else {
                 st.streak = (pick, 1);
             }
-            if st.streak.1 > 400 {
+            if st.streak.1 > 400 && st.stalled.is_none() {
                 let others: Vec<usize> = runnable.iter().copied().filter(|t| *t != pick).collect();
                 let forced = others[st.rng.below(others.len() as u64) as usize];
                 st.streak = (forced, 1);
@@ -574,6 +618,8 @@ impl Sim {
                 boost: vec![0; n],
                 preempted: vec![false; n],
                 streak: (usize::MAX, 0),
+                stalled: None,
+                stall_used: false,
                 stmt_points: cfg.stmt_points,
                 max_steps: cfg.max_steps,
                 replay: cfg.replay,
@@ -744,6 +790,13 @@ impl Env for Sim {
             }
             st.acq_order.u64(me as u64);
             Self::event(&mut st, me, "acquired", poisoned as u64);
+            if let Strategy::Stall(exp) = st.strategy {
+                if !st.stall_used && st.replay.is_none() && st.rng.below(3) == 0 {
+                    st.stall_used = true;
+                    let until = st.stats.steps + 10u64.pow(exp as u32);
+                    st.stalled = Some((me, until));
+                }
+            }
         }
     }
 
